@@ -16,6 +16,10 @@ Decided:
             required to be right for angles arbitrarily close to zero.
 Not decided: numerical accuracy near thresholds, sign(0) at exact half-turns for the closed-form methods (outside the
 stated domain), LAPACK's eigenvector accuracy.
+Added after the seeding rounds (DESIGN.md 6.6-6.8):
+ BAND.gate / INVERT.sample  every tolerance gate is mapped to the rotation-angle band it captures (must lie outside the stated domain);
+            each method inverts E(q) on the decision path taken by six kinds of sample rotation (exact closed forms of that path);
+ DOMAIN-GUARD  interval analysis: every sqrt argument of chiaverini is provably non-negative.
 """
 import ast
 import itertools
